@@ -715,6 +715,7 @@ func (tree *MutableTree) UnsetCommitting() {
 func (tree *MutableTree) SaveVersion() ([]byte, int64, error) {
 	version := tree.WorkingVersion()
 	tree.initialVersionSet = false
+	tree.ndb.opts.initialVersionSet = false
 
 	if tree.VersionExists(version) {
 		// If the version already exists, return an error as we're attempting to overwrite.
@@ -879,6 +880,7 @@ func (tree *MutableTree) saveFastNodeRemovals() error {
 // and is otherwise ignored.
 func (tree *MutableTree) SetInitialVersion(version uint64) {
 	tree.ndb.opts.InitialVersion = version
+	tree.ndb.opts.initialVersionSet = true
 	tree.initialVersionSet = true
 }
 
